@@ -59,6 +59,10 @@ func MultiPoint(mp orb.MultiPoint, z maptile.Zoom) maptile.Set {
 // Bound creates a tile cover for the bound. i.e. all the tiles
 // that intersect the bound.
 func Bound(b orb.Bound, z maptile.Zoom) maptile.Set {
+	if b.IsEmpty() {
+		return make(maptile.Set)
+	}
+
 	lo := maptile.At(b.Min, z)
 	hi := maptile.At(b.Max, z)
 
